@@ -567,8 +567,15 @@ Definition chk_C10_ev (k : trk) (o : op) (e : event) : bool :=
   let idle := k_up_ended k && Nat.eqb (length (k_held k)) 0 in
   let defined := negb (Nat.eqb (p_cap (k_par k)) 0) || is_fec (k_type k) in
   match e with
-  | EUpPoll UAAfterEnd => false
-  | EUpPoll (UAItem c) => N.eqb c (N.of_nat (S (k_pulled k)))
+  | EUpPoll a =>
+      (* an upstream error leaves the adapter before upstream is asked again: otherwise a second
+         error in the same call would overwrite the first *)
+      match k_pending_err k with Some _ => false | None => true end
+      && match a with
+         | UAAfterEnd => false
+         | UAItem c => N.eqb c (N.of_nat (S (k_pulled k)))
+         | _ => true
+         end
   | ERet r =>
       match k_pending_err k with
       | Some t => match r with RetItem t' => tok_eqb t t' | _ => false end
@@ -716,8 +723,8 @@ Definition chk_C15_ev (k : trk) (o : op) (e : event) : bool :=
       && opt_eqb Bool.eqb (ob_empty ob) (Nat.eqb n 0)
       && opt_eqb Bool.eqb (ob_term ob) (Nat.eqb n 0)
       && (if is_merge t then true
-          else opt_eqb (fun a b => Nat.eqb (fst a) (fst b) && match snd a with Some h => Nat.eqb h (fst b) | None => false end)
-                       (ob_hint ob) (n, Some n))
+          else opt_eqb (fun a b => N.eqb (fst a) (fst b) && match snd a with Some h => N.eqb h (fst b) | None => false end)
+                       (ob_hint ob) (N.of_nat n, Some (N.of_nat n)))
       && match t, bound_of k with
          | TFUB, Some c => opt_eqb Nat.eqb (ob_cap ob) c && Nat.leb nrun c
          | _, _ => true
@@ -756,9 +763,9 @@ Definition chk_C17_ev (k : trk) (o : op) (e : event) : bool :=
             if is_adapter t then up_remaining_m k + length (k_held k)
             else if is_merge t then 0            (* merges report (0, None): lower bound only *)
             else length (k_held k) in
-          Nat.leb lo remaining
+          N.leb lo (N.of_nat remaining)
           && (if is_merge t then match hi with None => true | Some _ => true end
-              else match hi with Some h => Nat.leb remaining h | None => true end)
+              else match hi with Some h => N.leb (N.of_nat remaining) h | None => true end)
       end
   | _ => true
   end.
